@@ -174,7 +174,7 @@ CONFIG = {
     "C11": {
         "rule": ("generated concurrent programs per type (Buffer+consumers incl. shared consumer/SetCleanerConfig/Range, Channel, Exclusive, Workers, Worker, Notifier, WaitCond, "
                  "context combinators: 2-6 goroutines x 1-8 drawn operations inside the documented contracts, pointer payloads written just before hand-over and read just after receipt), "
-                 "plus the free-running ChanPubSub and ChanCaster program generators, all executed by a -race binary; oracle = Go race detector reports with a library frame in a "
+                 "plus the free-running ChanPubSub, ChanCaster, Buffer, Exclusive, Channel and shared-consumer program generators of the other properties, all executed by a -race binary; oracle = Go race detector reports with a library frame in a "
                  "conflicting access (signature = the racing pair of library functions). non-trivial = a program in which >=2 operations on the same object overlapped in time "
                  "(pairs of overlapping methods are listed in the class histogram); distinct = hash of the generated program."),
         "assumptions": ["dynamic happens-before race detection: only executed interleavings are judged", "x86-64 memory model as exercised by the Go race detector"],
@@ -182,6 +182,11 @@ CONFIG = {
             {"name": "race_programs", "test": "TestC11RacePrograms", "race": True, "checks": {"quick": 2400, "thorough": 500000}, "shards": {"quick": 8, "thorough": 16}},
             {"name": "race_pubsub", "test": "TestPubSubFree", "race": True, "checks": {"quick": 6000, "thorough": 400000}, "shards": {"quick": 4, "thorough": 16}, "env": {"VKIT_PROFILE": "C11"}},
             {"name": "race_caster", "test": "TestC08CasterFree", "race": True, "checks": {"quick": 4000, "thorough": 200000}, "shards": {"quick": 2, "thorough": 8}},
+            # the other free-running program generators under the race detector as well
+            {"name": "race_buffree", "test": "TestBufFree", "race": True, "checks": {"quick": 1200, "thorough": 60000}, "shards": {"quick": 2, "thorough": 8}, "env": {"VKIT_PROFILE": "C11"}},
+            {"name": "race_exclfree", "test": "TestExclFree", "race": True, "checks": {"quick": 2000, "thorough": 100000}, "shards": {"quick": 2, "thorough": 8}, "env": {"VKIT_PROFILE": "C11"}},
+            {"name": "race_chanlin", "test": "TestChanLin", "race": True, "checks": {"quick": 3000, "thorough": 150000}, "shards": {"quick": 2, "thorough": 8}, "env": {"VKIT_PROFILE": "C11"}},
+            {"name": "race_conslin", "test": "TestConsLin", "race": True, "checks": {"quick": 3000, "thorough": 150000}, "shards": {"quick": 2, "thorough": 8}, "env": {"VKIT_PROFILE": "C11"}},
         ],
     },
     "C09": {
